@@ -252,15 +252,14 @@ def judge(sp, cfg, res, want=None):
                 if an and nsamp and sim.get("mode") != 3:
                     n = min(an, 8)
                     z = max(az, 1)
-                    exp_rows.append(("label", "max alloc:"))
-                    exp_rows.append(("plain", n / s))
-                    exp_rows.append(("bytes", n * z / s))
-                    exp_rows.append(("label", "alloc:"))
-                    exp_rows.append(("plain", float(n)))
-                    exp_rows.append(("bytes", float(n * z)))
-                    exp_rows.append(("label", "dealloc:"))
-                    exp_rows.append(("plain", float(n)))
-                    exp_rows.append(("bytes", float(n * z)))
+                    rg = beh.get("rg", 0)
+                    # all blocks live at once; optionally the first block grows by rg bytes and shrinks back
+                    exp_rows += [("label", "max alloc:"), ("plain", n / s), ("bytes", (n * z + rg) / s),
+                                 ("label", "alloc:"), ("plain", float(n)), ("bytes", float(n * z)),
+                                 ("label", "dealloc:"), ("plain", float(n)), ("bytes", float(n * z))]
+                    if rg:
+                        exp_rows += [("label", "grow:"), ("plain", 1.0), ("bytes", float(rg)),
+                                     ("label", "shrink:"), ("plain", 1.0), ("bytes", float(rg))]
                 if len(rows) != len(exp_rows):
                     add("C20", "continuation_rows", "%s: %d continuation rows %s, expected %d (%s)" % (where, len(rows), [r[0] for r in rows], len(exp_rows), [x[:2] for x in exp_rows]))
                     if any(x[0] == "counter" for x in exp_rows) != any("/s" in r[0] or "Hz" in r[0] for r in rows):
